@@ -1331,7 +1331,7 @@ fn main() {
 	let mut check = Check::from_args(
 		"C19",
 		"exploration",
-		"per entry point (JSON str/blob, TileJSON str/blob, CSV, GeoValue, VPL, pipeline factory incl. CSV side file, .vpl file, vector tile, versatiles/PMTiles from memory and from file, MBTiles, tar, directory): valid encodings produced by the harness generators and independent encoders, mutated by bit flips, boundary-value bytes / big- and little-endian integers / varints, truncation, insertion, deletion, duplication, splices of a second valid input, multi-byte and broken UTF-8 insertion; for versatiles and PMTiles additionally mutations of the raw block index / tile index / directories / header / metadata BEFORE compression (so that the corruption passes the compression layer); nesting depth up to 256; plus uniformly random bytes. Each case runs in a worker process on a 2 MiB stack under a tracking allocator. Violations: panic, process death (abort, stack overflow, signal), peak heap growth > 256 MiB for inputs <= 256 KiB. A timeout (3 s quick / 10 s thorough) is counted, not reported. non-trivial = derived from a valid encoding and accepted, or rejected with another message than the entry point's first structural check",
+		"per entry point (JSON str/blob, TileJSON str/blob, CSV, GeoValue, VPL, pipeline factory incl. CSV side file, .vpl file, vector tile, versatiles/PMTiles from memory and from file, MBTiles, tar, directory): valid encodings produced by the harness generators and independent encoders, mutated by bit flips, boundary-value bytes / big- and little-endian integers / varints, truncation, insertion, deletion, duplication, splices of a second valid input, multi-byte and broken UTF-8 insertion; for versatiles and PMTiles additionally mutations of the raw block index / tile index / directories / header / metadata BEFORE compression (so that the corruption passes the compression layer); nesting depth up to 256; vector tiles that decode but are odd in content (odd number of tag words, tag ids beyond the tables, geometry deltas at the ends of the 64-bit range), as input of the vector tile entry and as the tile the in-memory source of the pipeline-factory entry delivers to vectortiles_update_properties / from_vectortiles_merged before the tile is looked up; plus uniformly random bytes. Each case runs in a worker process on a 2 MiB stack under a tracking allocator. Violations: panic, process death (abort, stack overflow, signal), peak heap growth > 256 MiB for inputs <= 256 KiB. A timeout (3 s quick / 10 s thorough) is counted, not reported. non-trivial = derived from a valid encoding and accepted, or rejected with another message than the entry point's first structural check",
 	);
 	check.assume("bulk tile streams over corrupted containers are outside the statement; liveness is not asserted (timeouts are counted)");
 	vt::engine::watchdog(7200);
